@@ -33,6 +33,11 @@ type Case struct {
 	ModeAt map[string]int
 	Parser []string // tokens referenced by the parser (alternatives of the start rule)
 	PFile  int
+	// Resect: declaration indices before which the "@lexer" header is written again (several lexer
+	// sections in one file); ParserAt: declaration index before which the parser section of PFile
+	// stands, followed by a new "@lexer" header (0 = parser section at the end of the file)
+	Resect   []int `json:",omitempty"`
+	ParserAt int   `json:",omitempty"`
 	Files  map[string]string `json:",omitempty"`
 	Detail string            `json:",omitempty"`
 }
@@ -121,6 +126,16 @@ func genCase(rt *rapid.T) *Case {
 	perm := rapid.Permutation(all).Draw(rt, "perm")
 	c.Parser = perm[:ri(rt, 1, len(perm), "np")]
 	c.PFile = ri(rt, 0, c.NFiles-1, "pfile")
+	if len(c.Decls) <= 40 && ri(rt, 0, 2, "sections") == 0 {
+		for i := range c.Decls {
+			if i > 0 && ri(rt, 0, 3, "resect") == 0 {
+				c.Resect = append(c.Resect, i)
+			}
+		}
+		if ri(rt, 0, 1, "parsermid") == 0 {
+			c.ParserAt = ri(rt, 1, len(c.Decls), "parserat")
+		}
+	}
 	return c
 }
 
@@ -131,6 +146,7 @@ func (c *Case) render() (files map[string]string, order []string) {
 		var sb strings.Builder
 		sb.WriteString("@lexer\n")
 		done := map[string]bool{}
+		parserDone := false
 		for i, d := range c.Decls {
 			if d.File != f {
 				continue
@@ -154,11 +170,20 @@ func (c *Case) render() (files map[string]string, order []string) {
 					return "@external " + d.Name
 				}
 			}
-			if d.Mode == "" {
-				sb.WriteString(line(d) + "\n")
+			if d.Mode != "" && done[d.Mode] {
 				continue
 			}
-			if done[d.Mode] {
+			if f == c.PFile && c.ParserAt > 0 && i == c.ParserAt && !parserDone {
+				sb.WriteString("\n@parser\n@start s = " + strings.Join(c.Parser, "\n  | ") + "\n\n@lexer\n")
+				parserDone = true
+			}
+			for _, r := range c.Resect {
+				if r == i {
+					sb.WriteString("\n@lexer\n")
+				}
+			}
+			if d.Mode == "" {
+				sb.WriteString(line(d) + "\n")
 				continue
 			}
 			done[d.Mode] = true
@@ -171,7 +196,7 @@ func (c *Case) render() (files map[string]string, order []string) {
 			}
 			sb.WriteString("}\n")
 		}
-		if f == c.PFile {
+		if f == c.PFile && !parserDone {
 			sb.WriteString("\n@parser\n@start s = " + strings.Join(c.Parser, "\n  | ") + "\n")
 		}
 		files[fmt.Sprintf("f%d.lox", f)] = sb.String()
